@@ -50,6 +50,10 @@ class Disp:
 
     async def __aenter__(self):
         self.log.append(("enter-start", self.i))
+        if self.enter == "leaky":              # a disposable that changes the context of whatever task runs its __aenter__
+            ctx.updated(A(v=777)).__enter__()
+            self.log.append(("entered", self.i))
+            return None
         if self.enter == "spawner":            # a disposable that starts a background task of the scope while entering
             self.spawner()
             self.log.append(("entered", self.i))
@@ -190,7 +194,7 @@ def scenarios(level=1):
         [[("state", "ok"), ("fail", "ok")], [("slow-state", "ok"), ("fail", "ok")], [("state", "fail"), ("none", "fail")],
          [("state", "slow-ok"), ("none", "fail")], [("states", "ok"), ("state", "ok")], [("state", "ok"), ("slow-fail", "ok")],
          [("none", "fail"), ("state", "slow-fail")], [("none", "slow-fail"), ("none", "fail"), ("none", "slow-ok")],
-         [("spawner", "ok"), ("slow-state", "ok")], [("spawner", "ok"), ("slow-fail", "ok")], [("spawner", "ok"), ("fail", "ok")]]
+         [("leaky", "ok")], [("leaky", "ok"), ("state", "ok")], [("spawner", "ok"), ("slow-state", "ok")], [("spawner", "ok"), ("slow-fail", "ok")], [("spawner", "ok"), ("fail", "ok")]]
     cancels = (None, 0.5, 1.2, 1.7, 2.6, 5.5)
     spawn_sets = [[], ["done"], ["block"], ["fail", "block"], ["respawn"], ["fail", "respawn"]]
     if level >= 3:
